@@ -112,6 +112,8 @@ type explorer struct {
 	maxVectors int
 	doneSeen   int
 	usesStubs  bool
+	violDeadline time.Time
+	violGrace    time.Duration
 	crossChecked int
 	crossUnknown int
 	qcache     sync.Map // qkey -> "sat"/"unsat"
@@ -128,7 +130,7 @@ type vector struct {
 
 func newExplorer(harness string) *explorer {
 	e := &explorer{harness: harness, ends: map[string]int{}, reached: map[string]int{}, asserts: map[string]int{},
-		cutReasons: map[string]int{}, unwind: 64, maxSteps: 200_000_000, maxPaths: 1 << 30, maxViol: 8, maxVectors: 24}
+		cutReasons: map[string]int{}, unwind: 64, maxSteps: 200_000_000, maxPaths: 1 << 30, maxViol: 8, maxVectors: 24, violGrace: 30 * time.Second}
 	e.cond = sync.NewCond(&e.mu)
 	e.work = [][]decision{nil}
 	return e
@@ -154,6 +156,12 @@ func (e *explorer) take() ([]decision, bool) {
 		if len(e.work) > 0 {
 			if e.paths+e.active >= e.maxPaths {
 				e.truncated = fmt.Sprintf("path limit %d reached", e.maxPaths)
+				e.stopped = true
+				e.cond.Broadcast()
+				return nil, false
+			}
+			if !e.violDeadline.IsZero() && time.Now().After(e.violDeadline) {
+				e.truncated = "stopped after a violation was found (grace period over)"
 				e.stopped = true
 				e.cond.Broadcast()
 				return nil, false
@@ -205,6 +213,11 @@ func (e *explorer) finish(ps *pathState, res pathResult) {
 	}
 	if len(e.violations) >= e.maxViol {
 		e.stopped = true
+	}
+	if len(e.violations) > 0 && e.violDeadline.IsZero() {
+		// a violation is already in hand: look for other violated labels for a
+		// bounded time only (a broken tree can make every remaining path slow)
+		e.violDeadline = time.Now().Add(e.violGrace)
 	}
 	if len(e.samples) < 5 {
 		e.samples = append(e.samples, ps.summary(res))
